@@ -53,6 +53,9 @@ def stuck_cause(case, run):
     return 'unknown'
 
 
+BG_STATES = ('loading', 'contemplation', 'archiving', 'updating')
+
+
 def oracle(ctx, case, run, edges):
     '''the property itself on the implementation's observations; returns
     ("kind", fields, text) of the first violation or None'''
@@ -62,11 +65,29 @@ def oracle(ctx, case, run, edges):
         trig.setdefault(t, set()).add(a)
     prev = None
     booted = False
+    env = FC.is_env_case(case)
+    came = None          # the state archiving was entered from
     for i, (ev, o) in enumerate(zip(case['events'], run)):
         for a, c in o['hops']:
             if (a, c) not in table:
                 return ('undocumented-transition', {'from': a, 'to': c},
                         'state moved %s -> %s which is not an edge of state.dot (event %d %s)' % (a, c, i, ev))
+            if env and a in BG_STATES and ev[0] != 'Done' and prev is not None and prev['pending']:
+                # a state that owns a background step is left by that step's
+                # completion only ("every accepted trigger ends, once its
+                # background steps complete, at rest")
+                cause = stuck_cause(case, run) if not FC.single_endpoint(case) else 'unknown'
+                if ev[0] == 'ESubDone' and ev[1] == 1:
+                    cause = 'second-step3-of-deprecated-endpoint'
+                return ('stuck-after-submit-crosstalk', {'cause': cause, 'symptom': 'left-while-outstanding'}
+                        if cause == 'unknown' else {'cause': cause},
+                        'event %d %s moved the pipeline %s -> %s while the background step of %s is outstanding (%s)'
+                        % (i, ev, a, c, a, prev['pending']))
+            if env and c == 'archiving':
+                came = a
+            if env and a == 'archiving' and came is not None and c != came:
+                return ('archive-not-back', {'from': came, 'to': c},
+                        'archiving was entered from %s and left for %s (event %d %s)' % (came, c, i, ev))
         if o['hops']:
             booted = True
         if ev[0] == 'Fire' and prev is not None:
